@@ -121,6 +121,61 @@ def run_generated(ctx, ncases, depth, allow_huge):
                                   dict(kind='decode', type=s, hdr=c['hdr'], value=c['exp'][:400], wire=wire, expected=want[:400],
                                        implementation=got[:400], model=m[:400], flags=c['flags'],
                                        how='Alias(...).get_data_type_from_section(<Type>) ; create_from_stream(BytesIO(wire), hdr) ; tell()'))
+            # (a) decoding is a function of the bytes: scribbling over a decoded composite value must not change what the SAME bytes decode to
+            #     next time (a decoder that hands out cached/shared objects fails here)
+            import io
+            def scribble(o):
+                if type(o).__name__ == 'PyFixedList' or isinstance(o, list):
+                    for x in list(o): scribble(x)
+                    try: o.append(None)
+                    except Exception: pass
+                elif type(o).__name__ == 'PyFixedDict' or isinstance(o, dict):
+                    for k in list(o.keys()):
+                        scribble(o[k])
+                        try: o[k] = None
+                        except Exception: pass
+            pure_n = 0
+            for c, s, d in zip(cases, syn, datas):
+                if gen_types.depth_of(c['t']) < 1 or pure_n >= 150 or len(d) > 2000: continue
+                lt = lib.make(c['t']); first = impl.lib_decode(lt, d, c['hdr'])
+                if not first.startswith('OK'): continue
+                pure_n += 1; ctx.case(None); ctx.count('decode-twice')
+                try: scribble(lt.create_from_stream(io.BytesIO(d), c['hdr']))
+                except Exception: continue
+                again = impl.lib_decode(lt, d, c['hdr'])
+                if again != first and 'purity' not in dev_seen:
+                    dev_seen['purity'] = 1
+                    ctx.violation(dict(kind='decode-not-a-function-of-the-bytes', type=s, hdr=c['hdr'], wire=d.hex()[:2000], first_decode=first[:400], decode_after_mutating_the_first_result=again[:400],
+                                       how='v = t.create_from_stream(BytesIO(wire), hdr); mutate v in place; t.create_from_stream(BytesIO(wire), hdr) again'))
+            # (b) method argument lists: EntityMethod.create_from_stream must hand every argument codec the METHOD's header size - the arguments
+            #     decode like the fields of a FIXED_DICT of the same types under that header size (the model's sequence decoder)
+            from replay_unpack.core.entity_def.entity_description import EntityMethod, MethodArgument
+            groups = []; cur = []
+            for c, s, d, e in zip(cases, syn, datas, encs):
+                if c['rest'] or len(d) > 800 or e == 'ERR': continue
+                if cur and (cur[0][0]['hdr'] != c['hdr'] or len(cur) >= 3): groups.append(cur); cur = []
+                cur.append((c, s, d))
+            if cur: groups.append(cur)
+            groups = groups[:120]
+            dict_types = ['{%s}' % ','.join('a%d:%s' % (i, s) for i, (c, s, d) in enumerate(g)) for g in groups]
+            try: marg = modelrun_lines('decode', ['%d %s %s' % (g[0][0]['hdr'], impl.type_syntax(('dict', tuple(('a%d' % i, c['t']) for i, (c, s, d) in enumerate(g)), False)), (b''.join(d for c, s, d in g)).hex() or '-') for g in groups])
+            except Exception: marg = None
+            for gi, g in enumerate(groups):
+                hdr = g[0][0]['hdr']; data = b''.join(d for c, s, d in g)
+                meth = EntityMethod('m', True, [MethodArgument(lib.make(c['t'])) for c, s, d in g], hdr)
+                st = io.BytesIO(data)
+                try:
+                    a, kw = meth.create_from_stream(st)
+                    got = 'OK {%s} %d' % (','.join('a%d=%s' % (i, impl.canon_t(x, arg.type)) for i, (x, arg) in enumerate(zip(a, meth._arguments))), len(data) - st.tell())
+                except Exception as ex: got = 'ERR ' + impl.err_name(ex)
+                ctx.case(('method-args', hdr, data.hex()[:200])); ctx.count('method-args:hdr=%d' % hdr)
+                if marg is not None and got != marg[gi] and first_corr is None:
+                    first_corr = dict(kind='method-args', types=[s for c, s, d in g], hdr=hdr, wire=data.hex(), implementation=got[:600], model=marg[gi][:600])
+                want = 'OK {%s} 0' % ','.join('a%d=%s' % (i, c['exp']) for i, (c, s, d) in enumerate(g))
+                if got != want and not any(f in KNOWN_CLASSES for c, s, d in g for f in c['flags']) and 'method-args' not in dev_seen:
+                    dev_seen['method-args'] = 1
+                    ctx.violation(dict(kind='method-arguments', types=[s for c, s, d in g], hdr=hdr, wire=data.hex()[:2000], expected=want[:600], implementation=got[:600],
+                                       how='EntityMethod(name, True, [MethodArgument(t)...], hdr).create_from_stream(BytesIO(wire)); values and tell()'))
             # malformed stream: correspondence only
             mal = []
             for c, s, d in zip(cases, syn, datas):
